@@ -326,6 +326,27 @@ pub fn gen(tier: Tier, rng: &mut Rng64, out: &mut Out) {
         let meaning = macro_case(i).unwrap().0;
         run("C15.macro", &[i.to_string(), s(meaning)], out);
     }
+    // --- evaluation through Bdds with more than 2^16 nodes (pointer values beyond 16 bits in the memo keys); the
+    // cases are heavy for the driver, so they are spread over the file (one per section) to land in different shards
+    let mut big: Vec<(&str, usize)> = vec![("pairs", 17), ("cnf", 17), ("muxsop", 16), ("pairs", 16), ("pairs", 10), ("equal", 8), ("muxcond", 8)];
+    if thorough {
+        big.extend_from_slice(&[("pairs", 18), ("cnf", 16), ("cnf", 18), ("muxcond", 16), ("muxsop", 17), ("muxcond", 19),
+            ("equal", 16), ("equal", 11), ("muxsop", 8), ("cnf", 10)]);
+    }
+    big.reverse();
+    fn emit_big(big: &mut Vec<(&str, usize)>, out: &mut Out) -> bool {
+        match big.pop() {
+            None => false,
+            Some((family, p)) => {
+                let (n, e) = big_family(family, p);
+                let mut text = String::new();
+                tight_print(&e, 6, &mut text);
+                run("C15.big", &[s(family), p.to_string(), n.to_string(), enc(&text)], out);
+                true
+            }
+        }
+    }
+    emit_big(&mut big, out);
     // --- all trees up to size 4 (quick) / 5 (thorough) over three known names, one unknown name, constants
     let abc: Vec<String> = vec![s("a"), s("b"), s("c")];
     let leaves = vec![Variable(s("a")), Variable(s("b")), Variable(s("c")), Variable(s("z")), Const(true), Const(false)];
@@ -336,6 +357,7 @@ pub fn gen(tier: Tier, rng: &mut Rng64, out: &mut Out) {
         let five = build_trees(5, &leaves);
         for e in &five[5] { if rng.chance(1, 6) { run("C15.eval", &[names_field(&abc), sexp(e)], out); } }
     }
+    emit_big(&mut big, out);
     // --- keyword-like variable names: every tree with <= 3 nodes over {TRUE, False, tRuE, true, false}, as a tree and as text
     let kw3 = kw(3, 0).into_iter().chain(vec![s("tRuE")]).collect::<Vec<_>>();   // TRUE, True, False, tRuE
     let kleaves = vec![Variable(s("TRUE")), Variable(s("False")), Variable(s("tRuE")), Const(true), Const(false)];
@@ -349,6 +371,7 @@ pub fn gen(tier: Tier, rng: &mut Rng64, out: &mut Out) {
             run("C15.evals", &[names_field(&[s(k)]), enc(&pat.replace("{}", k))], out);
         }
     }
+    emit_big(&mut big, out);
     // --- random larger trees over 0..7 variables, some with an unknown name; strings through eval_expression_string
     let rounds = if thorough { 200000 } else { 2500 };
     for i in 0..rounds {
@@ -365,6 +388,7 @@ pub fn gen(tier: Tier, rng: &mut Rng64, out: &mut Out) {
             run("C15.evals", &[names_field(&names), enc(&text)], out);
         }
     }
+    emit_big(&mut big, out);
     // --- export: all functions over n <= 3, n = 4 all (thorough) / sampled (quick), random 5..7
     for n in 0..=3usize {
         let count = 1u64 << (1u64 << n);
@@ -374,6 +398,7 @@ pub fn gen(tier: Tier, rng: &mut Rng64, out: &mut Out) {
             if n >= 1 { run("C15.export", &[names_field(&kw(n, (t % 7) as usize)), fmt_bdd(&b)], out); }
         }
     }
+    emit_big(&mut big, out);
     let count4 = if thorough { 65536 } else { 3000 };
     for i in 0..count4 {
         let t = if thorough { i as u64 } else { rng.below(65536) };
@@ -392,6 +417,7 @@ pub fn gen(tier: Tier, rng: &mut Rng64, out: &mut Out) {
             run("C15.export", &[names_field(&anon(n)), fmt_bdd(&v)], out);
         }
     }
+    emit_big(&mut big, out);
     // --- name characters chosen by their LOW BYTE (reserved characters / whitespace bytes shifted into higher planes)
     // in first, middle and last position of real variable names: eval, eval of text, export round trips
     let lbc = low_byte_chars();
@@ -410,18 +436,7 @@ pub fn gen(tier: Tier, rng: &mut Rng64, out: &mut Out) {
         }
         run("C15.export", &[names_field(&[format!("{}", c)]), fmt_bdd(&bdd_of_tt(1, &tt_from_index(1, 2)))], out);
     }
-    // --- evaluation through Bdds with more than 2^16 nodes (pointer values beyond 16 bits in the memo keys)
-    let mut big: Vec<(&str, usize)> = vec![("pairs", 17), ("cnf", 17), ("muxsop", 16), ("pairs", 16), ("pairs", 10), ("equal", 8), ("muxcond", 8)];
-    if thorough {
-        big.extend_from_slice(&[("pairs", 18), ("cnf", 16), ("cnf", 18), ("muxcond", 16), ("muxsop", 17), ("muxcond", 19),
-            ("equal", 16), ("equal", 11), ("muxsop", 8), ("cnf", 10)]);
-    }
-    for (family, p) in big {
-        let (n, e) = big_family(family, p);
-        let mut text = String::new();
-        tight_print(&e, 6, &mut text);
-        run("C15.big", &[s(family), p.to_string(), n.to_string(), enc(&text)], out);
-    }
+    while emit_big(&mut big, out) {}
     // --- malformed diagrams reaching the `panic!` arm / the indexing panics (model agreement only)
     for bad in ["|1,0,0|1,1,1|0,1,1|", "|1,0,0|1,1,1|0,0,0|", "|2,0,0|2,1,1|1,0,1|0,2,2|", "|2,0,0|2,1,1|1,0,1|0,1,3|",
                 "|2,0,0|2,1,1|1,0,1|0,5,2|", "|3,0,0|3,1,1|2,0,1|1,2,2|0,3,1|", "|2,0,0|2,1,1|5,0,1|", "|2,0,0|2,1,1|1,1,0|0,0,0|"] {
